@@ -431,7 +431,14 @@ def judge_endpoints(ops, rep, ctx, clauses):
                 fail(i, 'escape', 'decode(%s) let %s escape (documented family only)' % (hx(data)[:80], head[4:]))
                 rd.sync = False
                 continue
-            if head.startswith('esc'):
+            if head.startswith('esc') and rd.sync:
+                # an undocumented exception where the property prescribes an outcome
+                if exp is None:
+                    relevant = 'c05' in clauses or ('c07' in clauses and want == OVER) or ('c08' in clauses and want == SIZE)
+                    if relevant:
+                        fail(i, 'error-class', 'block %s raised %s, the defect calls for %s' % (hx(data)[:80], head[4:], want))
+                elif {'c02', 'c05', 'c01', 'c07', 'c08', 'c10'} & clauses:
+                    fail(i, 'wellformed-rejected', 'well-formed block %s raised %s (expected %s)' % (hx(data)[:80], head[4:], _short(exp)))
                 rd.sync = False
             if not rd.sync:
                 continue
